@@ -27,11 +27,17 @@ def worker(wid, seeds, src, results, lock):
                 name = seeds.pop(0)
             sdir = VERIF / "seeded" / name
             res = {"applies": False, "checks": {}}
-            subprocess.run(["git", "-C", str(wt), "checkout", "-q", "--", "."], capture_output=True)
+            # a failed 3-way merge leaves conflict markers and unmerged index entries: reset hard, never just checkout
+            subprocess.run(["git", "-C", str(wt), "reset", "-q", "--hard", "HEAD"], capture_output=True)
             subprocess.run(["git", "-C", str(wt), "clean", "-fdq"], capture_output=True)
             r = subprocess.run(["git", "-C", str(wt), "apply", str(sdir / "patch.diff")], capture_output=True, text=True)
             if r.returncode != 0:
                 r = subprocess.run(["git", "-C", str(wt), "apply", "--3way", str(sdir / "patch.diff")], capture_output=True, text=True)
+                unmerged = subprocess.run(["git", "-C", str(wt), "diff", "--name-only", "--diff-filter=U"], capture_output=True, text=True).stdout.strip()
+                if r.returncode == 0 and unmerged:
+                    r.returncode, r.stderr = 1, "3-way merge left conflicts in " + unmerged
+                if r.returncode != 0:
+                    subprocess.run(["git", "-C", str(wt), "reset", "-q", "--hard", "HEAD"], capture_output=True)
             if r.returncode == 0:
                 res["applies"] = True
                 try:
@@ -44,8 +50,11 @@ def worker(wid, seeds, src, results, lock):
                     t0 = time.time()
                     try:
                         p = subprocess.run(["./check", pid, "--tier", "quick"], cwd=str(vcopy), env=env, capture_output=True, text=True, timeout=1800)
-                        lines = [l[:240] for l in p.stdout.splitlines() if l.startswith(("VIOLATION", "  - "))][:4]
-                        res["checks"][pid] = {"rc": p.returncode, "lines": lines, "s": round(time.time() - t0)}
+                        allv = [l for l in p.stdout.splitlines() if l.startswith(("VIOLATION", "  - "))]
+                        concrete = [l[:240] for l in allv if l.startswith(("  - [diff]", "  - [law]"))][:2]
+                        lines = [l[:240] for l in allv][:3] + concrete
+                        res["checks"][pid] = {"rc": p.returncode, "lines": lines, "s": round(time.time() - t0),
+                                              "concrete_input": bool(concrete) or (bool(allv) and not allv[0].rstrip().endswith("no-failing-input-found"))}
                     except subprocess.TimeoutExpired:
                         res["checks"][pid] = {"rc": -1, "lines": ["timeout"], "s": 1800}
                     if res["checks"][pid]["rc"] == 1 and pid == own:
